@@ -615,6 +615,17 @@ def run(scn, ch, log=False):
         for rid, mk in sorted(delivered.items()):
             r = all_reqs[rid]
             if mk is None:
+                # bytes the peer put on the wire outside any answer and that reached the client after the hand-over are
+                # part of the answer for any client (same latitude as for a response with a foreign marker, below)
+                cid_ = next((c_ for c_ in sorted(conns) if any(q_[0] == rid for q_ in conns[c_]["requests"])), None)
+                ho_ = handover.get(rid)
+                junk_after = False
+                if cid_ is not None and ho_ is not None:
+                    before_ = sum(len(chunk) for step, chunk in conns[cid_]["ctr"].recv_log if step < ho_[0])
+                    junk_after = any(n2 in sent and sent[n2]["b"] > before_ for _k2, n2 in conns[cid_]["abnormal"])
+                if junk_after:
+                    probes["junk_after_handover_in_response"] = probes.get("junk_after_handover_in_response", 0) + 1
+                    continue
                 violate("marker_present", "response_without_marker", f"request {rid} got a response without marker")
                 continue
             o, cid, q, n = int(mk[0]), int(mk[1]), mk[2].decode(), int(mk[3])
